@@ -15,11 +15,13 @@
 (*                  response keys) carry the same value                     *)
 (*   ConsistentInv  every position common to base and reformulation carries *)
 (*                  the same value                                          *)
+(*   ValueInv       every position the data universe (GQLShapeData) knows   *)
+(*                  carries the service's value                             *)
 (* Acceptance = every line consumed (high-water mark, as in Trace_SFI).     *)
 (* Trace_C20_diag.cfg evaluates the same three error sets without stopping  *)
 (* and prints the non-empty ones (used to report / classify violations).    *)
 (***************************************************************************)
-EXTENDS GQLShape, Json, TLCExt, IOUtils
+EXTENDS GQLShapeData, Json, TLCExt, IOUtils
 TraceLog == ndJsonDeserialize(IOEnv.TRACE)
 VARIABLES l, base, cmp, obs
 tvars == <<l, base, cmp, obs>>
@@ -41,7 +43,10 @@ ShapeE == RespErrs(obs.op, obs.resp)
 SelfE  == AgreeErrs(obs.op, obs.resp, obs.op, obs.resp)
 AgreeE == IF obs.role \in {"variant", "xbase"} THEN AgreeErrs(cmp.op, cmp.resp, obs.op, obs.resp) ELSE {}
 
+DataE  == DataErrs(obs.op, obs.resp)
+
 ShapeInv      == ShapeE = {}
+ValueInv      == DataE = {}
 SelfInv       == SelfE = {}
 ConsistentInv == AgreeE = {}
 
@@ -54,7 +59,7 @@ TraceAccepted ==
 \* diagnostic mode: never stops, prints the error sets of every line that has any
 Diag ==
   /\ HighWater
-  /\ IF ShapeE = {} /\ SelfE = {} /\ AgreeE = {} THEN TRUE
+  /\ IF ShapeE = {} /\ SelfE = {} /\ AgreeE = {} /\ DataE = {} THEN TRUE
      ELSE PrintT(ToJson([line |-> l - 1, id |-> obs.id, against |-> cmp.id,
-                         shape |-> ShapeE, self |-> SelfE, agree |-> AgreeE]))
+                         shape |-> ShapeE, self |-> SelfE, agree |-> AgreeE, data |-> DataE]))
 =============================================================================
